@@ -204,7 +204,7 @@ def build_test(pkg, race=False, tags=None):
     if tags:
         cmd += ["-tags", tags]
     cmd.append("./" + pkg)
-    with Lock("build"):
+    with Lock("build-" + os.path.basename(out)):
         p = run(cmd, cwd=HARNESS, timeout=1800)
     if p.returncode != 0:
         raise Inconclusive("harness build failed:\n" + p.stdout[-6000:])
